@@ -197,6 +197,7 @@ FUNCS: list[tuple[str, list[tuple[str, tuple]], tuple, list[str], list[list]]] =
 	('range_loose_bounds', [('n', INT)], INT, ['t = 0', 'm = absi(n)', 'for i in range(m & 3):', '\tt = t * 3 + i + 1', 'for j in range(m | 1, (m ^ 5) + 3):', '\tt = clamp(t * 2 + j)', 'for k in range(4 if m > 2 else 2):', '\tt = clamp(t + k)', 'return t'], INTS),
 	('range_loose_comp', [('n', INT)], ('list', INT), ['m = absi(n)', 'xs = [q * 2 for q in range(m & 3)]', 'xs.append(len(xs))', 'return xs'], INTS),
 	('quoted_strings', [('n', INT)], STR, ["a = 'a\"b'", "b = '''abc'''", 'c = \"\"\"x\"y\"\"\"', "d = 'it\\'s'", "e = '''l1\\nl2'''", 'return a + b + c + d + e + str(n)'], INTS),
+	('quoted_strings_escapes', [('n', INT)], STR, [r"a = 'say \"hi\"'", r"b = '''tail\\'s'''", r"c = 'a\\\"b'", r"d = 'q\\'", r"e = 'tab\\there'", r"g = 'it\'s \"so\"'", "return a + '|' + b + '|' + c + '|' + d + '|' + e + '|' + g + str(n)"], INTS),
 	('field_init_order', [('n', INT)], INT, ['a = Acc(absi(n) % 5)', 'return clamp(a.all() + a.total + a.shown)'], INTS),
 	('comma_in_strings', [('n', INT)], INT, ["d = {k: 'a,b' for k in range(absi(n) % 3 + 1)}", "e = {'x,y': 1, 'z': 2}", 't = 0', 'for k, v in d.items():', '\tt = t + k + len(v)', "return t * 10 + len(e) + e['x,y']"], INTS),
 	('raise_with_comma', [('n', INT)], INT, ['t = 0', 'try:', '\tif n > 1:', "\t\traise RuntimeError('too big, stop (now)')", '\tt = 1', 'except RuntimeError as e:', '\tt = 2', 'return t'], INTS),
